@@ -138,7 +138,7 @@ CHECKS["C17"] = (
     "Every spec with <=5 atoms x every subset S passed as list/tuple/set/frozenset/dict keys/generator/iterator and with repeated "
     "atoms: subgraph equals "
     "the induced labelled subgraph of the reference model; components equal the union-find partition; compose over all 3^n "
-    "covers by two (overlapping) pieces equals the labelled union with later-wins and leaves the pieces unchanged, also when the second piece carries other isomers on the shared centres (both orders); centres whose broken / formed / fleeting descriptors name different atom sets; composing the component subgraphs in every "
+    "covers by two (overlapping) pieces equals the labelled union with later-wins and leaves the pieces unchanged, also when the second piece carries other isomers on the shared centres (both orders); centres whose broken / formed / fleeting descriptors name different atom sets; centres with a bonded neighbour outside the descriptor; composing the component subgraphs in every "
     "order reproduces the graph; graphs of 126-300 (thorough 1100) atoms: components, node components, compose of the "
     "component subgraphs, a large induced subgraph; two / three identical fragments composed in every order.",
     "Trusted: refgraph.subgraph/compose/components.", "DESIGN.md 5/C17")
@@ -157,7 +157,7 @@ CHECKS["C07"] = (
 CHECKS["C18"] = (
     ENUM + " (all connectivity matrices n<=4 x element lists; all valence-complete molecules up to 3/4 heavy atoms x atom orders)",
     "Structural part on every symmetric 0/1 matrix with n<=4 and every element list; chemical part on every connected neutral "
-    "closed-shell multigraph of <=3 (thorough 4) heavy atoms from C,N,O,S(II/VI),P(III/V),halogens with H filled in, plus 59 "
+    "closed-shell multigraph of <=3 (thorough 4) heavy atoms from C,N,O,S(II/VI),P(III/V),halogens with H filled in, plus 61 "
     "listed aromatic/cumulated systems (incl. cross-conjugated bis-cumulenes) and all C4-C5 (thorough C6) hydrocarbons, each in all atom orders (small) or "
     "shifts/reversal/transpositions: standard valences, no charges, no radicals, support equals connectivity; the public path "
     "to_rdmol(generate_bond_orders=True) under three identifier schemes, both insertion orders and for graphs cut out with subgraph().",
